@@ -388,7 +388,9 @@ class SparseDisk:
             self.fh.seek((sector + 1) * SECTOR_SIZE)
             buf += self.fh.read(remaining_len)
 
-        return zlib.decompress(buf[header_len : header_len + compressed_len])
+        # A grain never inflates to more than grain_size sectors, don't let a crafted grain allocate more than that
+        max_length = self.header.grain_size * SECTOR_SIZE
+        return zlib.decompressobj().decompress(buf[header_len : header_len + compressed_len], max_length)
 
 
 class SparseExtentHeader:
